@@ -21,7 +21,7 @@ fn nth_script(ops: &[&'static str], len: usize, mut idx: usize) -> Vec<&'static 
         .collect()
 }
 
-fn server_case(ctx: &Ctx, script: &[&str], flags: Flags) {
+fn server_case(ctx: &Ctx, script: &[&str], flags: Flags, spelling: usize) {
     let log = new_log();
     let svc = standard_service(SvcCfg { log: Some(log.clone()), ..Default::default() });
     let mut req = json!({"method": "org.verif.t.Script", "parameters": {"ops": script, "token": "T"}});
@@ -31,13 +31,22 @@ fn server_case(ctx: &Ctx, script: &[&str], flags: Flags) {
     if flags.oneway {
         req["oneway"] = json!(true);
     }
+    // a flag that is not set may be left out, written `false`, or written `null`
+    if spelling > 0 {
+        let v = if spelling == 1 { json!(false) } else { Value::Null };
+        for k in ["more", "oneway", "upgrade"] {
+            if req.get(k).is_none() {
+                req[k] = v.clone();
+            }
+        }
+    }
     let mut bytes = serde_json::to_vec(&req).unwrap();
     bytes.push(0);
     let run = run_whole(&svc, &bytes, Some(log.clone()));
     let evs = log.lock().unwrap().clone();
     let has_reply_op = script.iter().any(|o| !o.starts_with('c'));
-    ctx.case(if has_reply_op { Some(hash_of(&(script, flags))) } else { None });
-    let wit = |msg: String| json!({"engine": "c05-server", "script": script, "more": flags.more, "oneway": flags.oneway, "events": format!("{:?}", evs), "reply_bytes": show(&run.out), "message": msg});
+    ctx.case(if has_reply_op { Some(hash_of(&(script, flags, spelling))) } else { None });
+    let wit = |msg: String| json!({"engine": "c05-server", "script": script, "more": flags.more, "oneway": flags.oneway, "unset_flags_spelled": (["absent", "false", "null"][spelling]), "events": format!("{:?}", evs), "reply_bytes": show(&run.out), "message": msg});
     if let Some(p) = &run.panicked {
         ctx.violation("c05:panic", wit(format!("panic {}", p)));
         return;
@@ -244,7 +253,7 @@ fn client_case(ctx: &Ctx, k: usize, fin: Final, follow: usize, spelling: usize, 
 }
 
 pub fn main(ctx: &Ctx) -> i32 {
-    ctx.set_rule("server: every script over {set_continues(true), set_continues(false), reply, reply_error} up to length 5 (thorough: also the three library error replies, up to length 5) x flags {-, more, oneway, more+oneway}; client: k continues replies then a final result / standard error / custom error (with and without parameters) whose `continues` member is absent / false / null, then 0-3 further calls; distinct = (script, flags) / (k, final kind, follow-ups); non-trivial = script has >=1 reply op / k>=1 or error final");
+    ctx.set_rule("server: every script over {set_continues(true), set_continues(false), reply, reply_error} up to length 5 (thorough: also the three library error replies, up to length 5) x flags {-, more, oneway, more+oneway} x unset flags spelled {absent, false, null}; client: k continues replies then a final result / standard error / custom error (with and without parameters) whose `continues` member is absent / false / null, then 0-3 further calls; distinct = (script, flags) / (k, final kind, follow-ups); non-trivial = script has >=1 reply op / k>=1 or error final");
     ctx.assume("a gated attempt (continues set, request without more) must return an error and write nothing even for a oneway request");
     ctx.set_exhaustive(true);
     let ops: &[&'static str] = ctx.tier.pick(OPS, OPS_EXT);
@@ -257,7 +266,9 @@ pub fn main(ctx: &Ctx) -> i32 {
             while idx < total {
                 let script = nth_script(ops, len, idx);
                 for &f in ALL_FLAGS {
-                    server_case(ctx, &script, f);
+                    for spelling in 0..3 {
+                        server_case(ctx, &script, f, spelling);
+                    }
                 }
                 if (idx % 301 == 0 && len >= 3) || (ctx.want_sample() && len >= 2) {
                     ctx.sample(json!({"script": script, "note": "run with flags -, more, oneway, more+oneway"}));
@@ -291,7 +302,7 @@ pub fn replay(ctx: &Ctx, w: &Value) {
         let script: Vec<String> = w.get("script").and_then(|v| v.as_array()).map(|a| a.iter().filter_map(|x| x.as_str().map(String::from)).collect()).unwrap_or_default();
         let s2: Vec<&str> = script.iter().map(|s| s.as_str()).collect();
         let f = Flags { more: w.get("more").and_then(|v| v.as_bool()).unwrap_or(false), oneway: w.get("oneway").and_then(|v| v.as_bool()).unwrap_or(false) };
-        server_case(ctx, &s2, f);
+        server_case(ctx, &s2, f, match w.get("unset_flags_spelled").and_then(|v| v.as_str()) { Some("false") => 1, Some("null") => 2, _ => 0 });
     } else {
         let k = w.get("k").and_then(|v| v.as_u64()).unwrap_or(0) as usize;
         let follow = w.get("follow_up_calls").and_then(|v| v.as_u64()).unwrap_or(0) as usize;
